@@ -365,7 +365,11 @@ fn user_invalid(s: &str) -> Option<&'static str> {
         return Some("empty name");
     }
     if s.chars().all(|c| c.is_ascii_digit()) {
-        return None;
+        // ids are 32-bit: a larger number is neither an id nor (here) a name
+        return match s.parse::<u128>() {
+            Ok(v) if v <= u32::MAX as u128 => None,
+            _ => Some("a number beyond the 32-bit id range that is not a known name"),
+        };
     }
     if ["root", "daemon", "nobody", "bin", "nogroup"].contains(&s) {
         return None;
@@ -390,8 +394,8 @@ fn sweeps(t: Tier) -> Vec<Sweep> {
         Sweep { primary: "-maxdepth", prefix: vec![], alphabet: vec!["+", "-", "0", "1", "9", "x", " ", "\u{e9}"], maxlen: q(3, 4), extra: vec!["", "18446744073709551616"], invalid: never },
         Sweep { primary: "-mindepth", prefix: vec![], alphabet: vec!["+", "-", "0", "1", "x"], maxlen: q(3, 3), extra: vec![""], invalid: never },
         Sweep { primary: "-regextype", prefix: vec![], alphabet: vec![], maxlen: 0, extra: vec!["", "foo", "EMACS", "emacs ", "posix", "posix-extende", "posix-extended2", "awk", "posix-egrep", "egrep", "gnu-awk", "posix-awk", "posix-minimal-basic", "findutils-default", "ed", "sed", "grep", "emacs", "posix-basic", "posix-extended"], invalid: regextype_invalid },
-        Sweep { primary: "-user", prefix: vec![], alphabet: vec![], maxlen: 0, extra: vec!["", "root", "0", "54321", "zzunknownuser", "zz 1", "99999999999999999999", "-1", "\u{e9}"], invalid: user_invalid },
-        Sweep { primary: "-group", prefix: vec![], alphabet: vec![], maxlen: 0, extra: vec!["", "root", "0", "54322", "zzunknowngroup", "99999999999999999999", "-1"], invalid: user_invalid },
+        Sweep { primary: "-user", prefix: vec![], alphabet: vec![], maxlen: 0, extra: vec!["", "root", "0", "54321", "zzunknownuser", "zz 1", "99999999999999999999", "4294967295", "4294967296", "99999999999", "18446744073709551615", "-1", "\u{e9}"], invalid: user_invalid },
+        Sweep { primary: "-group", prefix: vec![], alphabet: vec![], maxlen: 0, extra: vec!["", "root", "0", "54322", "zzunknowngroup", "99999999999999999999", "4294967295", "4294967296", "99999999999", "18446744073709551615", "-1"], invalid: user_invalid },
     ];
     // -newerXt DATE: pieces of the accepted date syntax, ASCII and non-ASCII digits, junk; judged for
     // no-panic (every string) and for rejection only where a reading-independent predicate says invalid
